@@ -169,20 +169,36 @@ def variants(ctx, mod, repo):
     base_bad = {(o.rule, o.key) for r in ctx.rules for o in r.obs if not o.ok}
     summary = []
     failures = []
-    for v in vs:
+    from concurrent.futures import ThreadPoolExecutor
+
+    def prepare(v):
+        """scratch copy + variant -> facts file (the copy is removed at once, the fact file is kept
+        in its own scratch directory until the rules have run)"""
         tmp = tempfile.mkdtemp(prefix="riovar.")
         try:
             dst = os.path.join(tmp, "repo")
             subprocess.check_call(["rsync", "-a", "--exclude", "target", "--exclude", ".git", repo.rstrip("/") + "/", dst + "/"])
             ok, why = apply_variant(v, dst)
             if not ok:
-                summary.append({"variant": v["name"], "status": "skipped", "why": "does not apply to the current tree: " + why})
-                continue
+                return tmp, None, "does not apply to the current tree: " + why
             try:
-                facts = Facts(build.facts_path(dst, "default"))
+                fp = build.facts_path(dst, "default")
             except build.BuildError as e:
-                summary.append({"variant": v["name"], "status": "skipped", "why": "does not build: " + str(e)[-200:]})
+                return tmp, None, "does not build: " + str(e)[-200:]
+            out = os.path.join(tmp, "facts.json")
+            shutil.copyfile(fp, out)
+            shutil.rmtree(dst, ignore_errors=True)
+            return tmp, out, ""
+        except Exception as e:  # infrastructure trouble with one variant must not hide the others
+            return tmp, None, "preparation failed: %s" % e
+    with ThreadPoolExecutor(max_workers=6) as ex:
+        prepared = list(ex.map(prepare, vs))
+    for v, (tmp, fp, why) in zip(vs, prepared):
+        try:
+            if fp is None:
+                summary.append({"variant": v["name"], "status": "skipped", "why": why})
                 continue
+            facts = Facts(fp)
             c2, bad = run_rules_on(mod, ctx.prop, facts)
             new = [o for o in bad if (o.rule, o.key) not in base_bad]
             rules = sorted({o.rule for o in new})
